@@ -196,6 +196,10 @@ func (h *handshake) makeDecodeErrCache(local, remote map[uint16]error) *sync.Map
 		localRegisteredErrors[v.Error()] = v
 	}
 	for k, v := range remote {
+		if v == nil {
+			// (the peer's list comes from the wire: an entry may hold the nil error)
+			continue
+		}
 		if err, exist := localRegisteredErrors[v.Error()]; exist {
 			c.Store(k, err)
 			continue
